@@ -119,24 +119,72 @@ impl Store {
     fn set_value(&mut self, i: usize, value: &[u8]) {
         self.items[i].as_mut().unwrap().set_value(value)
     }
+    // All slot accesses use a loop counter as index (a constant in every unwound iteration): a
+    // symbolic index makes CBMC consider the empty slots too, and what is read through it (row
+    // lengths, for instance) stops being a constant for the solver.
     fn insert_at(&mut self, i: usize, key: &[u8], value: &[u8]) {
         assert!(self.len < CAP, "VERIF-MODEL-BOUND: rocksdb model capacity exceeded");
-        let mut j = self.len;
-        while j > i {
-            self.items[j] = self.items[j - 1].take();
+        let mut j = CAP - 1;
+        while j > 0 {
+            if j > i && j <= self.len {
+                self.items[j] = self.items[j - 1].take();
+            }
             j -= 1;
         }
-        self.items[i] = Some(Box::new(KRow::new(key, value)));
+        let mut j = 0;
+        let mut row = Some(Box::new(KRow::new(key, value)));
+        while j < CAP {
+            if j == i {
+                self.items[j] = row.take();
+            }
+            j += 1;
+        }
         self.len += 1;
     }
     fn remove_at(&mut self, i: usize) {
-        self.items[i] = None;
-        let mut j = i;
-        while j + 1 < self.len {
-            self.items[j] = self.items[j + 1].take();
+        let mut j = 0;
+        while j < CAP {
+            if j == i {
+                self.items[j] = None;
+            } else if j > i && j < self.len {
+                self.items[j - 1] = self.items[j].take();
+            }
             j += 1;
         }
         self.len -= 1;
+    }
+    /// value bytes of row `i` as a fresh vector
+    fn value_vec(&self, i: usize) -> Vec<u8> {
+        let mut j = 0;
+        while j < CAP {
+            // `j < self.len` is decided during symbolic execution whenever the number of rows is
+            // concrete, so the empty slots are never dereferenced even under an infeasible guard
+            if j < self.len && j == i {
+                return self.items[j].as_ref().unwrap().value().to_vec();
+            }
+            j += 1;
+        }
+        panic!("row index out of range");
+    }
+    fn row_boxes(&self, i: usize) -> (Box<[u8]>, Box<[u8]>) {
+        let mut j = 0;
+        while j < CAP {
+            if j < self.len && j == i {
+                let r = self.items[j].as_ref().unwrap();
+                return (Box::<[u8]>::from(r.key()), Box::<[u8]>::from(r.value()));
+            }
+            j += 1;
+        }
+        panic!("row index out of range");
+    }
+    fn set_value_at(&mut self, i: usize, value: &[u8]) {
+        let mut j = 0;
+        while j < CAP {
+            if j < self.len && j == i {
+                self.items[j].as_mut().unwrap().set_value(value);
+            }
+            j += 1;
+        }
     }
 }
 
@@ -166,6 +214,15 @@ impl Store {
     }
     fn remove_at(&mut self, i: usize) {
         self.items.remove(i);
+    }
+    fn value_vec(&self, i: usize) -> Vec<u8> {
+        self.items[i].1.clone()
+    }
+    fn row_boxes(&self, i: usize) -> (Box<[u8]>, Box<[u8]>) {
+        (Box::<[u8]>::from(self.key(i)), Box::<[u8]>::from(self.value(i)))
+    }
+    fn set_value_at(&mut self, i: usize, value: &[u8]) {
+        self.set_value(i, value)
     }
 }
 
@@ -321,7 +378,7 @@ impl DB {
 
     pub fn get<K: AsRef<[u8]>>(&self, key: K) -> Result<Option<Vec<u8>>, Error> {
         self.with(|s| match Self::pos(s, key.as_ref()) {
-            Ok(i) => Ok(Some(s.value(i).to_vec())),
+            Ok(i) => Ok(Some(s.value_vec(i))),
             Err(_) => Ok(None),
         })
     }
@@ -330,7 +387,7 @@ impl DB {
         self.with(|s| {
             match Self::pos(s, key.as_ref()) {
                 Ok(i) => {
-                    s.set_value(i, value.as_ref());
+                    s.set_value_at(i, value.as_ref());
                 }
                 Err(i) => {
                     s.insert_at(i, key.as_ref(), value.as_ref());
@@ -383,11 +440,19 @@ impl DB {
     pub fn verif_row(&self, i: usize) -> (Vec<u8>, Vec<u8>) {
         self.with(|s| (s.key(i).to_vec(), s.value(i).to_vec()))
     }
+    /// Plant a row as the new LAST row without searching (building a pre-state whose keys the
+    /// harness assumes to be ascending).
+    pub fn verif_plant_last(&self, key: &[u8], value: &[u8]) {
+        self.with(|s| {
+            let n = s.len();
+            s.insert_at(n, key, value)
+        })
+    }
     /// Plant a row without spending budget or logging (building a pre-state).
     pub fn verif_plant(&self, key: &[u8], value: &[u8]) {
         self.with(|s| match Self::pos(s, key) {
             Ok(i) => {
-                s.set_value(i, value);
+                s.set_value_at(i, value);
             }
             Err(i) => {
                 s.insert_at(i, key, value);
@@ -414,12 +479,12 @@ impl<'a> Iterator for DBIterator<'a> {
                 if next >= s.len() {
                     return None;
                 }
-                Some((s.key(next).to_vec().into_boxed_slice(), s.value(next).to_vec().into_boxed_slice()))
+                Some(s.row_boxes(next))
             } else {
                 if next == 0 || next > s.len() {
                     return None;
                 }
-                Some((s.key(next - 1).to_vec().into_boxed_slice(), s.value(next - 1).to_vec().into_boxed_slice()))
+                Some(s.row_boxes(next - 1))
             }
         });
         match out {
